@@ -55,12 +55,13 @@ height, of one point, with an ACCEPT majority for the manifest hash.  The trees 
 by consensus through the manifest hash: their keys are distinct (hypotheses `hT`, `hS`; see
 `duplicate_tree_key_witness`). -/
 theorem validator_implies_consistent (c : Checks) (he : c.emptyRootChecked = true) (hm : c.majorityChecked = true)
+    (hso : c.validatorOpSelf = true) (hss : c.validatorStateSelf = true)
     (b : Blk) (hT : b.opsTree.Nodup) (hS : b.stsTree.Nodup)
     (h : validatorAccepts c b = true) : consistent b := by
-  simp only [validatorAccepts, proposalOK, opsOK, stsOK, vpOK, he, hm, Bool.and_eq_true, beq_iff_eq,
+  simp only [validatorAccepts, vSelf, proposalOK, opsOK, stsOK, vpOK, he, hm, hso, hss, Bool.and_eq_true, beq_iff_eq,
     Bool.not_true, Bool.false_or] at h
-  obtain ⟨⟨⟨⟨hp1, hp2⟩, ho1, ho2⟩, hs1, hs2⟩, ⟨⟨hv1, hv2⟩, hv3⟩, hv4⟩ := h
-  refine ⟨hp1, hp2, ?_, ho1, ?_, ?_, hs1, ?_, ?_, hv1, hv2, hv3, hv4⟩
+  obtain ⟨⟨⟨⟨⟨hp1, hp2⟩, ho1, ho2⟩, hs1, hs2⟩, ⟨⟨hv1, hv2⟩, hv3⟩, hv4⟩, hb1, hb2⟩ := h
+  refine ⟨hp1, hp2, ?_, ho1, ?_, ?_, hs1, ?_, ?_, hv1, hv2, hv3, hv4, hb1, hb2⟩
   · -- operations: same elements
     by_cases h0 : b.ops.length = 0
     · have e1 : b.ops = [] := List.eq_nil_of_length_eq_zero h0
@@ -105,17 +106,19 @@ theorem validator_implies_consistent (c : Checks) (he : c.emptyRootChecked = tru
       simp only [h0, if_false, Bool.and_eq_true, beq_iff_eq] at hs2
       simp [e1, hs2.2]
 
-/-- **import_implies_validator.**  An importer that runs the item checks stores only what the validator accepts. -/
-theorem import_implies_validator (c : Checks) (hi : c.importerChecksItems = true) (b : Blk)
+/-- **import_implies_validator.**  An importer that runs the item checks, and the own-validity check of every
+operation (of a genesis block too) and state, stores only what the validator accepts. -/
+theorem import_implies_validator (c : Checks) (hi : c.importerChecksItems = true)
+    (ho : c.importerOpSelf = true) (hg : c.importerGenesisOpSelf = true) (hs : c.importerStateSelf = true) (b : Blk)
     (h : importerAccepts c b = true) : validatorAccepts c b = true := by
-  simp only [importerAccepts, hi, Bool.not_true, Bool.false_or, Bool.and_eq_true] at h
-  simp only [validatorAccepts, Bool.and_eq_true]
-  exact ⟨⟨⟨h.2.1.1, h.2.1.2⟩, h.2.2⟩, h.1⟩
+  simp only [importerAccepts, iSelf, hi, ho, hg, hs, ite_self, Bool.not_true, Bool.false_or, Bool.and_eq_true, beq_iff_eq] at h
+  simp only [validatorAccepts, vSelf, Bool.and_eq_true, Bool.or_eq_true, beq_iff_eq]
+  exact ⟨⟨⟨⟨h.1.2.1.1, h.1.2.1.2⟩, h.1.2.2⟩, h.1.1⟩, Or.inr h.2.1, Or.inr h.2.2⟩
 
 /-- the two together: with all three clauses, what the importer stores is consistent with its manifest -/
 theorem import_implies_consistent (b : Blk) (hT : b.opsTree.Nodup) (hS : b.stsTree.Nodup)
     (h : importerAccepts fixed b = true) : consistent b :=
-  validator_implies_consistent fixed rfl rfl b hT hS (import_implies_validator fixed rfl b h)
+  validator_implies_consistent fixed rfl rfl rfl rfl b hT hS (import_implies_validator fixed rfl rfl rfl rfl b h)
 
 /-! ### witnesses: what each clause is needed for -/
 
@@ -154,6 +157,24 @@ theorem empty_tree_witness :
   intro h
   exact absurd h.2.2.2.2.1 (by decide)
 
+/-- the importer whose genesis path does not run `Operation.IsValid`: a genesis block with an operation whose body
+was rewritten under its old hashes is stored although the validator rejects it -/
+theorem genesis_operation_witness :
+    let c : Checks := { fixed with importerGenesisOpSelf := false }
+    let b := { okBlk with height := 0, prHeight := 0, sts := [(11, 0), (12, 0)], ivpHeight := 0, avpHeight := 0, badOps := 1 }
+    importerAccepts c b = true ∧ validatorAccepts c b = false ∧
+    importerAccepts c { b with height := 33, prHeight := 33, sts := [(11, 33), (12, 33)], ivpHeight := 33, avpHeight := 33 } = false := by
+  decide
+
+/-- a validator that runs `State.IsValid` only when it is given a callback accepts a block with a rewritten state -/
+theorem state_self_witness :
+    let c : Checks := { fixed with validatorStateSelf := false }
+    let b := { okBlk with badSts := 1 }
+    validatorAccepts c b = true ∧ ¬ consistent b := by
+  refine ⟨by decide, ?_⟩
+  intro h
+  exact absurd h.2.2.2.2.2.2.2.2.2.2.2.2.2.2 (by decide)
+
 /-- the hypothesis on the tree keys is needed: a tree that names one operation twice passes the checks -/
 theorem duplicate_tree_key_witness :
     let b := { okBlk with opsTree := [1, 1], mOpsRoot := some [1, 1] }
@@ -166,16 +187,21 @@ theorem duplicate_tree_key_witness :
 /-- the clauses the current source has -/
 def current : Checks :=
   { emptyRootChecked := Gen.C16.emptyRootChecked, majorityChecked := Gen.C16.majorityChecked,
-    importerChecksItems := Gen.C16.importerChecksItems }
+    importerChecksItems := Gen.C16.importerChecksItems,
+    validatorOpSelf := Gen.C16.validatorOpSelf, validatorStateSelf := Gen.C16.validatorStateSelf,
+    importerOpSelf := Gen.C16.importerOpSelf, importerGenesisOpSelf := Gen.C16.importerGenesisOpSelf,
+    importerStateSelf := Gen.C16.importerStateSelf }
 
-/-- the repaired clauses are in the source; the importer's item checks are reported by the harness
-(known finding while `importerChecksItems = false`) -/
+/-- the repaired clauses and the own-validity checks of both gates are in the source; the importer's item checks
+are reported by the harness (known finding while `importerChecksItems = false`) -/
 theorem facts_ok : Gen.C16.emptyRootChecked = true ∧ Gen.C16.majorityChecked = true ∧
-    Gen.C16.importerChecksVoteproofs = true ∧ Gen.C16.extractErrors = [] := by decide
+    Gen.C16.importerChecksVoteproofs = true ∧
+    Gen.C16.validatorOpSelf = true ∧ Gen.C16.validatorStateSelf = true ∧ Gen.C16.importerOpSelf = true ∧
+    Gen.C16.importerGenesisOpSelf = true ∧ Gen.C16.importerStateSelf = true ∧ Gen.C16.extractErrors = [] := by decide
 
 theorem validator_current_consistent (b : Blk) (hT : b.opsTree.Nodup) (hS : b.stsTree.Nodup)
     (h : validatorAccepts current b = true) : consistent b :=
-  validator_implies_consistent current (by decide) (by decide) b hT hS h
+  validator_implies_consistent current (by decide) (by decide) (by decide) (by decide) b hT hS h
 
 theorem source_pinned : Gen.C16.pins = Pins.C16 := by decide
 
